@@ -26,7 +26,7 @@ ASSUMPTIONS = ["equality with the fresh network: 1e-9 relative (l2) for direct s
 FLOORS = {"quick": {"cases_held": 350, "history_ops": 4000, "mon_unseeded_sensitivity": 300, "mon_reset": 5000},
           "thorough": {"cases_held": 12000, "history_ops": 150000, "mon_unseeded_sensitivity": 12000, "mon_reset": 180000}}
 KINDS = ["compliance", "compliance3d", "cg-ilu", "cg-mg", "dynamic", "eig-sparse", "eig-dense", "soe", "sc-linsolve", "general-const",
-         "general-nonsym", "aggregation", "filterconv-overhang", "block-loads", "dense-definiteness"]
+         "general-nonsym", "aggregation", "filterconv-overhang", "block-loads", "dense-definiteness", "cg-block"]
 TIMEOUT_CASE = 300
 
 
@@ -65,7 +65,7 @@ def build(kind, par):
     net = pym.Network()
     tol = 1e-9
     if kind in ("compliance", "cg-ilu", "cg-mg", "dynamic", "eig-sparse", "soe", "sc-linsolve", "general-const", "filterconv-overhang",
-                "block-loads", "compliance3d", "general-nonsym"):
+                "block-loads", "compliance3d", "general-nonsym", "cg-block"):
         if kind == "compliance3d":
             d = pym.DomainDefinition(par["nx"], par["ny"], 2)
         else:
@@ -104,6 +104,31 @@ def build(kind, par):
             g[-2] = -0.3 * g[-1] * rng.uniform(0, 1)
             return [rng.uniform(0.2, 1.0, d.nel), g]
         return net, [sx, sfv], [sc, su], 1e-6, gen_cg
+    if kind == "cg-block":
+        # two load cases of very different magnitude solved together by CG (a structural load next to an actuator force); between
+        # evaluations often only the small one changes, so the warm start already solves the large one
+        sK = net.append(pym.AssembleStiffness(sx, domain=d, bc=bc))
+        F0 = np.zeros((ndof, 2))
+        F0[-1, 0], F0[-3, 1] = 1.0, 1e-6
+        sF = S("F", F0)
+        su = net.append(pym.LinSolve([sK, sF], solver=pym.solvers.CG(preconditioner=pym.solvers.ILU(), tol=1e-10)))
+        sc0 = net.append(pym.EinSum([su[:, 0], sF[:, 0]], expression="i,i->"))
+        sc1 = net.append(pym.EinSum([su[:, 1], sF[:, 1]], expression="i,i->"))
+        last = {}
+
+        def gen_blk(rng):
+            if "x" in last and rng.random() < 0.6:
+                x, F = last["x"].copy(), last["F"].copy()       # same design and large load case as the previous evaluation
+            else:
+                x, F = rng.uniform(0.2, 1.0, d.nel), np.zeros((ndof, 2))
+                F[-1, 0] = rng.uniform(0.5, 2.0)
+                F[-2, 0] = -0.3 * rng.uniform(0, 1)
+            F[:, 1] = 0
+            free = np.setdiff1d(np.arange(ndof), bc)
+            F[rng.choice(free, size=2, replace=False), 1] = rng.standard_normal(2) * 10.0 ** rng.uniform(-8, -4)
+            last["x"], last["F"] = x.copy(), F.copy()
+            return [x, F]
+        return net, [sx, sF], [sc0, sc1], 1e-6, gen_blk
     if kind == "dynamic":
         # complex dynamic stiffness  K(1+0.05i) - w^2 M
         sK = net.append(pym.AssembleStiffness(sx, domain=d, bc=bc))
@@ -183,7 +208,8 @@ def build(kind, par):
         def genA(rng):
             Q = np.linalg.qr(rng.standard_normal((n, n)))[0]
             A = (Q * np.arange(1, n + 1) * rng.uniform(0.8, 1.2, n)) @ Q.T
-            return [(A + A.T) / 2]
+            A = (A + A.T) / 2
+            return [np.asfortranarray(A) if rng.random() < 0.5 else A]
         return net, [sA], [sl, sV], 1e-7, genA
     if kind == "dense-definiteness":
         # dense symmetric system with positive diagonal whose definiteness changes along the history (e.g. K - w^2 M swept
@@ -209,7 +235,7 @@ def build(kind, par):
                 A[idx, :] = 0
                 A[:, idx] = 0
                 A[idx, idx] = dg
-            return [A, rng.standard_normal(n)]
+            return [np.asfortranarray(A) if rng.random() < 0.3 else A, rng.standard_normal(n)]
         return net, [sA, sb], [sc, su], 1e-8, genD
     if kind == "aggregation":
         sx = S("x", np.linspace(0.5, 2, par["n"]))
@@ -247,7 +273,10 @@ def params(kind, rng):
 
 def _setin(ins, xs):
     for s, x in zip(ins, xs):
-        s.state = x.copy() if hasattr(x, "copy") else x
+        if isinstance(x, np.ndarray):
+            s.state = x.copy(order="K")       # keeps a column-major layout (a transposed view, the result of a LAPACK/einsum call)
+        else:
+            s.state = x.copy() if hasattr(x, "copy") else x
 
 
 def _seed(rng, outs, which):
@@ -268,9 +297,10 @@ def _seed(rng, outs, which):
     return out
 
 
-def _cycle(net, ins, outs, xs, seeds, pre=()):
+def _cycle(net, ins, outs, xs, seeds, pre=(), setin=True):
     net.reset()
-    _setin(ins, xs)
+    if setin:
+        _setin(ins, xs)
     with warnings.catch_warnings():
         warnings.simplefilter("ignore")
         net.response()
@@ -359,7 +389,12 @@ def run_case(case, ctx):
                 if not any(wh):
                     wh[-1] = True
                 pre.append(_seed(rng, outs, wh))
-            y1, g1 = _cycle(net, ins, outs, xs, seeds, pre)
+            # the compared cycle either starts by handing over the inputs again, or re-uses the inputs the network already holds
+            # (response() a second time on unchanged input signals: what a line search or a re-evaluation after reset() does)
+            keep_inputs = bool(rng.random() < 0.4)
+            if keep_inputs:
+                ctx.count("compared_cycle_reuses_held_inputs")
+            y1, g1 = _cycle(net, ins, outs, xs, seeds, pre, setin=not keep_inputs)
             net2, ins2, outs2, _, _ = build(kind, par)
             y2, g2 = _cycle(net2, ins2, outs2, xs, seeds)
         except RuntimeError as e:
